@@ -56,6 +56,12 @@ TEMPLATES = {
     'dictattrs': '<p tal:attributes="d; class x">${sorted(d.items())}</p><i tal:switch="x % 3"><b tal:case="0">zero</b><b tal:case="1">one</b><b tal:case="default">many</b></i>',
     'nested': '<ul tal:define="rows [[i * j for j in xs] for i in xs]"><li tal:repeat="r rows"><b tal:repeat="c r" tal:content="c" tal:omit-tag="c % 2"/></li></ul>',
     'mutating-looking': '<p tal:define="ys list(xs); dummy ys.append(x)">${ys} ${len(xs)} ${d.get(\'k\')}</p>',
+    # objects written as literals in the template are made anew for every rendering: mutating them leaves no trace
+    'mutable-literals': '<p tal:define="seen []; tab {\'k\': []}; st set()"><b tal:repeat="i xs">${seen.append(i)}${tab[\'k\'].append(x)}${st.add(i)}</b>'
+                        '${seen}|${tab}|${sorted(st)}|${[1, 2].pop()}|${{\'a\': 1}.setdefault(\'b\', x)}</p>',
+    # the parts of a translation block whose values mention each other's placeholders: filled in one pass, in one order
+    'crossed-placeholders': '<p i18n:translate="">From <b i18n:name="sender">Ann (to ${\'$\'}{recipient}) ${x}</b> to <i i18n:name="recipient">Bob (cc ${\'$\'}{sender})</i>'
+                            ' via <u i18n:name="via">${\'$\'}{sender}${\'$\'}{recipient}${\'$\'}{via}</u></p>',
 }
 
 
